@@ -175,19 +175,18 @@ def trange (unscale : Bool) (t : Trait α) : Option α :=
   if unscale then omul (colPtp t.mat) t.scale else colPtp t.mat
 /-- `location if unscale else mat.mean(axis=0)` -/
 def tmean (unscale : Bool) (t : Trait α) : Option α := if unscale then t.loc else colMean t.mat
-/-- `scale if unscale else mat.std(axis=0)` -/
+/-- `scale * numpy.nanstd(mat, axis=0) if unscale else mat.std(axis=0)`   (as of fix 94b833ce) -/
 def tstd (sq : α → α) (unscale : Bool) (t : Trait α) : Option α :=
-  if unscale then t.scale else (colVar t.mat).map sq
-/-- `scale**2 if unscale else mat.var(axis=0)` -/
+  if unscale then omul t.scale ((nanvar t.mat).map sq) else (colVar t.mat).map sq
+/-- `scale**2 * numpy.nanvar(mat, axis=0) if unscale else mat.var(axis=0)`   (as of fix 94b833ce) -/
 def tvar (unscale : Bool) (t : Trait α) : Option α :=
-  if unscale then omul t.scale t.scale else colVar t.mat
+  if unscale then omul (omul t.scale t.scale) (nanvar t.mat) else colVar t.mat
+/-- the statistics BEFORE fix 94b833ce (defect D9): `scale` and `scale**2`.  Not the code as it is;
+    kept only for `C15.tstd_prerepair_counterexample`. -/
+def tstdPrerepair (t : Trait α) : Option α := t.scale
+def tvarPrerepair (t : Trait α) : Option α := omul t.scale t.scale
 def targmax (t : Trait α) : Nat := colArgmax t.mat
 def targmin (t : Trait α) : Nat := colArgmin t.mat
-
-/-! proposed repair of D9 (NOT the code as it is; used only by `C15.d9_repair_tstd` / `d9_repair_tvar`):
-    `scale * nanstd(mat)` and `scale**2 * nanvar(mat)` -/
-def tstdPatched (sq : α → α) (t : Trait α) : Option α := omul t.scale ((nanvar t.mat).map sq)
-def tvarPatched (t : Trait α) : Option α := omul (omul t.scale t.scale) (nanvar t.mat)
 
 end trait
 
